@@ -108,3 +108,26 @@ JOBS['C03'] = [
      'defs': {'quick': {'NF': 1, 'NSHAPES': 4}, 'thorough': {'NF': 2, 'NSHAPES': 5}},
      'expect_reach': ['end', 'foreign-guard', 'newer-guard', 'fault', 'shorts-only', 'clean'], 'timeout': {'quick': 280, 'thorough': 1700}},
 ]
+
+# ---------------------------------------------------------------- C02 / C20
+_bufs_units = [u for u in 'vi lbuf mot sbuf ren dir syn reg led uc term rset rstr regex cmd tag conf'.split()]
+META['C02'] = {
+    'bounds': {'quick': 'all histories of K=2 commands from a 16-entry menu (3 edits whose effect depends on symbolic text, u, redo, w, w! other, 1w, 1,$w, e!, e fN, e #, b N, b +, b -, line move; N symbolic) followed by q, over 3 files (C20 also: with all 16 table slots open and N in {1,2,15,16}); after every command every open buffer is inspected',
+               'thorough': 'K=3'},
+    'outside': 'autowrite/writeany set (excluded by the property); more than 4 open buffers in this harness (the 16-slot table is exercised in C20 table job); vi-mode ZZ (same ex command)',
+    'assumptions': ['dirty is defined against the actual bytes of the file in the environment, which only the editor writes'],
+}
+META['C20'] = dict(META['C02'])
+JOBS['C02'] = [
+    {'name': 'buffer_histories', 'harness': 'c02_bufs.c', 'units': _bufs_units,
+     'defs': {'quick': {'K': 2, 'NFILES': 3}, 'thorough': {'K': 3, 'NFILES': 3}},
+     'expect_reach': ['end', 'quit-refused', 'quit-allowed', 'switch-refused', 'switched', 'revisited'], 'timeout': {'quick': 280, 'thorough': 1700}},
+]
+JOBS['C20'] = [
+    {'name': 'buffer_histories', 'harness': 'c02_bufs.c', 'units': _bufs_units,
+     'defs': {'quick': {'K': 2, 'NFILES': 3}, 'thorough': {'K': 3, 'NFILES': 3}},
+     'expect_reach': ['end', 'quit-refused', 'quit-allowed', 'switch-refused', 'switched', 'revisited'], 'timeout': {'quick': 280, 'thorough': 1700}},
+    {'name': 'full_table', 'harness': 'c02_bufs.c', 'units': _bufs_units,
+     'defs': {'quick': {'K': 2, 'NFILES': 16, 'PREOPEN': 16}, 'thorough': {'K': 3, 'NFILES': 16, 'PREOPEN': 16}},
+     'expect_reach': ['end', 'table-full', 'switched', 'revisited'], 'timeout': {'quick': 280, 'thorough': 1700}},
+]
